@@ -612,3 +612,7 @@ mod tests {
         assert_eq!(offsets.compute_start(42), (1, 27));
     }
 }
+
+#[cfg(kani)]
+#[path = "/verif/harness/vfs.rs"]
+pub(crate) mod verif_harness;
